@@ -615,6 +615,110 @@ example : ((machine handshakeSize).feedAll ⟨.head, []⟩ (([13, 10] ++ connect
 example : (feed handshakeSize ⟨.head, []⟩ [72,84,84,80,47,49,46,49,32,52,48,55,32,78,13,10,13,10]).2 =
     [.reject [[72,84,84,80,47,49,46,49,32,52,48,55,32,78]]] := by decide +kernel
 
+/-! ### merged schedules of both connections -/
+
+variable (sizeQ sizeR : List Bytes → Option Size)
+
+private theorem hasMsg_append (a b : List Out) : hasMsg (a ++ b) = (hasMsg a || hasMsg b) := by
+  simp [hasMsg, List.any_append]
+
+private theorem expect_idem (c : St) : expect (expect c) = expect c := by
+  unfold expect
+  cases h : c.phase <;> simp [h]
+
+private theorem expect_if (a b : Bool) (c : St) :
+    cond b (expect (cond a (expect c) c)) (cond a (expect c) c) = cond (a || b) (expect c) c := by
+  cases a <;> cases b <;> simp [expect_idem]
+
+/-- feeding `a ++ b` in one go or in two, including the empty cases -/
+private theorem feed_append' (s : St) (a b : Bytes) :
+    feed sizeQ s (a ++ b) = ((feed sizeQ (feed sizeQ s a).1 b).1, (feed sizeQ s a).2 ++ (feed sizeQ (feed sizeQ s a).1 b).2) :=
+  (machine_lawful sizeQ).2 s a b
+
+/-- release after buffering `d` = release, then receive `d` (also for empty `d`) -/
+private theorem release_feed (buf d : Bytes) :
+    release sizeQ ⟨.wait, buf ++ d⟩ =
+      ((feed sizeQ (release sizeQ ⟨.wait, buf⟩).1 d).1,
+       (release sizeQ ⟨.wait, buf⟩).2 ++ (feed sizeQ (release sizeQ ⟨.wait, buf⟩).1 d).2) := by
+  by_cases hd : d = []
+  · subst hd; simp [feed]
+  · have := pipelined_in_order sizeQ buf d hd
+    rw [wait_buffers] at this
+    exact this
+
+/-- two client segments in a row are one client segment -/
+theorem client_merge (σ : Sys) (a b : Bytes) (rest : List Ev) :
+    sysRun sizeQ sizeR σ (.client a :: .client b :: rest) = sysRun sizeQ sizeR σ (.client (a ++ b) :: rest) := by
+  simp only [sysRun, sysStep]
+  rw [feed_append' sizeQ σ.s a b]
+  simp only [hasMsg_append, List.map_append, List.append_assoc, expect_if]
+
+/-- **client_early**: while a request is outstanding (the reader of the client stream waits), a client segment that arrives
+    after a server segment may as well arrive before it: same final state, same outputs in the same order -/
+theorem client_early (σ : Sys) (hw : σ.s.phase = .wait) (e d : Bytes) (rest : List Ev) :
+    sysRun sizeQ sizeR σ (.server e :: .client d :: rest) = sysRun sizeQ sizeR σ (.client d :: .server e :: rest) := by
+  obtain ⟨⟨ph, buf⟩, c⟩ := σ
+  simp only at hw; subst hw
+  simp only [sysRun, sysStep, wait_buffers]
+  have hm0 : hasMsg ([] : List Out) = false := rfl
+  simp only [hm0, cond_false, List.map_nil, List.nil_append]
+  cases hm : hasMsg (feed sizeR c e).2
+  · simp only [cond_false, wait_buffers, hm0, List.map_nil, List.nil_append]
+  · simp only [cond_true]
+    rw [release_feed sizeQ buf d]
+    simp only [hasMsg_append, List.map_append, List.append_assoc, expect_if]
+
+/-- **merged_schedule_normal_form**: every causal interleaving of client segments and server segments has the same outcome
+    (final state of both readers, and the sequence of forwarded requests and relayed responses) as delivering ALL client
+    bytes first, in one segment, followed by the same server segments -/
+theorem merged_schedule_normal_form : ∀ (evs : List Ev) (σ : Sys), Causal sizeQ sizeR σ evs →
+    sysRun sizeQ sizeR σ evs = sysRun sizeQ sizeR σ (.client (clientBytes evs) :: serverEvs evs)
+  | [], σ, _ => by
+    simp [sysRun, sysStep, clientBytes, serverEvs, feed, hasMsg]
+  | .client d :: rest, σ, h => by
+    have ih := merged_schedule_normal_form rest _ h
+    have : sysRun sizeQ sizeR σ (.client d :: rest) =
+        sysRun sizeQ sizeR σ (.client d :: .client (clientBytes rest) :: serverEvs rest) := by
+      simp only [sysRun] at ih ⊢
+      rw [ih]
+    rw [this, client_merge]
+    rfl
+  | .server e :: rest, σ, h => by
+    obtain ⟨hw, hc⟩ := h
+    have ih := merged_schedule_normal_form rest _ hc
+    have : sysRun sizeQ sizeR σ (.server e :: rest) =
+        sysRun sizeQ sizeR σ (.server e :: .client (clientBytes rest) :: serverEvs rest) := by
+      simp only [sysRun] at ih ⊢
+      rw [ih]
+    rw [this, client_early sizeQ sizeR σ hw]
+    rfl
+
+/-- **merged_schedule_independent**: two causal schedules that carry the same client byte stream and the same sequence of
+    server segments have the same outcome, however the two streams are interleaved and however the client stream is cut -/
+theorem merged_schedule_independent (σ : Sys) (a b : List Ev)
+    (ha : Causal sizeQ sizeR σ a) (hb : Causal sizeQ sizeR σ b)
+    (hc : clientBytes a = clientBytes b) (hs : serverEvs a = serverEvs b) :
+    sysRun sizeQ sizeR σ a = sysRun sizeQ sizeR σ b := by
+  rw [merged_schedule_normal_form sizeQ sizeR a σ ha, merged_schedule_normal_form sizeQ sizeR b σ hb, hc, hs]
+
+/-- two server segments in a row, the first of which does not complete the response, are one server segment: together with
+    `merged_schedule_independent` the outcome depends only on the client byte stream and on the byte string of each response -/
+theorem server_merge (σ : Sys) (a b : Bytes) (rest : List Ev) (hn : hasMsg (feed sizeR σ.c a).2 = false) :
+    sysRun sizeQ sizeR σ (.server a :: .server b :: rest) = sysRun sizeQ sizeR σ (.server (a ++ b) :: rest) := by
+  simp only [sysRun, sysStep, hn, cond_false]
+  rw [feed_append' sizeR σ.c a b]
+  simp only [hasMsg_append, hn, Bool.false_or, List.map_append, List.append_assoc]
+  cases hm : hasMsg (feed sizeR (feed sizeR σ.c a).1 b).2 <;> simp
+
+/-- non-vacuity: a pipelined client stream and two responses, interleaved causally in two different ways -/
+example :
+    let σ : Sys := ⟨⟨.head, []⟩, ⟨.wait, []⟩⟩
+    let q1 : Bytes := [71, 32, 47, 32, 72, 84, 84, 80, 47, 49, 46, 49, 13, 10, 13, 10]           -- "G / HTTP/1.1\r\n\r\n"
+    let r1 : Bytes := [72, 84, 84, 80, 47, 49, 46, 49, 32, 50, 48, 52, 32, 78, 13, 10, 13, 10]   -- "HTTP/1.1 204 N\r\n\r\n"
+    (sysRun requestSize (responseSize [71]) σ [.client q1, .server (r1.take 5), .client q1, .server (r1.drop 5), .server r1]).2 =
+      (sysRun requestSize (responseSize [71]) σ [.client (q1 ++ q1), .server (r1.take 5), .server (r1.drop 5), .server r1]).2 := by
+  decide +kernel
+
 /-! ### F-C02a: the machine before the fix is *not* segmentation independent -/
 
 /-- "\r\nGET / HTTP/1.1\r\n\r\n" -/
